@@ -492,6 +492,143 @@ fn stress_pool(threads: usize, millis: u64, seed: u64, nkeys: u32, stop_on: Opti
     Report { ops: sh.ops.load(Ordering::Relaxed), violations: v }
 }
 
+/// Scenario "many held keys": `held` keys are locked (with values) for the whole run by the main thread; `free` further keys have
+/// values and are only looked at. Worker threads create `lock_all_entries` streams and must be given the `free` entries — each
+/// exactly once per stream, without waiting for the held ones (C11: the stream yields every entry whose lock it can obtain;
+/// other keys stay usable while items are pending). A stream that cannot get past the held entries shows as a timeout.
+macro_rules! holders_map {
+    ($name:ident, $ty:ty) => {
+        fn $name(threads: usize, millis: u64, held: u32, free: u32) -> Report {
+            let map: Arc<$ty> = Arc::new(<$ty>::new());
+            let violations: Arc<Mutex<Vec<String>>> = Arc::new(Mutex::new(Vec::new()));
+            let ops = Arc::new(AtomicU64::new(0));
+            let setup = catch_unwind(AssertUnwindSafe(|| {
+                let mut guards = Vec::new();
+                for k in 0..held {
+                    let mut g = map.blocking_lock_owned(k, SyncLimit::no_limit()).unwrap();
+                    g.insert(k);
+                    guards.push(g);
+                }
+                for k in held..held + free {
+                    let mut g = map.blocking_lock_owned(k, SyncLimit::no_limit()).unwrap();
+                    g.insert(k);
+                }
+                guards
+            }));
+            let guards = match setup {
+                Ok(g) => g,
+                Err(e) => return Report { ops: 0, violations: vec![format!("C13: panic while filling the container: {}", payload(e))] },
+            };
+            let stop = Arc::new(AtomicBool::new(false));
+            let (tx, rx) = std::sync::mpsc::channel::<Result<(), String>>();
+            for _ in 0..threads {
+                let map = Arc::clone(&map);
+                let stop = Arc::clone(&stop);
+                let tx = tx.clone();
+                let ops = Arc::clone(&ops);
+                std::thread::spawn(move || {
+                    use futures::StreamExt;
+                    while !stop.load(Ordering::Relaxed) {
+                        let r = catch_unwind(AssertUnwindSafe(|| {
+                            futures::executor::block_on(async {
+                                let mut stream = Box::pin(map.lock_all_entries().await);
+                                let mut seen = std::collections::BTreeSet::new();
+                                for _ in 0..free {
+                                    match stream.next().await {
+                                        Some(g) => {
+                                            let k = *g.key();
+                                            if k < held {
+                                                return Err(format!("C11/C01: the stream yielded a guard for key {k}, which is held for the whole run"));
+                                            }
+                                            if g.value().copied() != Some(k) {
+                                                return Err(format!("C11/C02: the stream's guard for key {k} shows {:?}", g.value()));
+                                            }
+                                            if !seen.insert(k) {
+                                                return Err(format!("C11: the stream yielded key {k} twice"));
+                                            }
+                                        }
+                                        None => return Err("C11: the stream ended although held entries are still unresolved".to_string()),
+                                    }
+                                }
+                                Ok(())
+                            })
+                        }));
+                        ops.fetch_add(1, Ordering::Relaxed);
+                        let msg = match r {
+                            Ok(x) => x,
+                            Err(e) => Err(format!("C13: panic inside the library or its caller: {}", payload(e))),
+                        };
+                        let bad = msg.is_err();
+                        let _ = tx.send(msg);
+                        if bad {
+                            break;
+                        }
+                    }
+                });
+            }
+            drop(tx);
+            // every stream must deliver its free entries in time
+            let start = Instant::now();
+            let mut out = Vec::new();
+            loop {
+                match rx.recv_timeout(Duration::from_secs(8)) {
+                    Ok(Ok(())) => {}
+                    Ok(Err(m)) => {
+                        out.push(m);
+                        break;
+                    }
+                    Err(std::sync::mpsc::RecvTimeoutError::Timeout) => {
+                        out.push(format!(
+                            "C11/C03: no stream delivered its {free} unlocked entries within 8 s while {held} other entries are held \
+                             (a stream must yield the entries it can lock without waiting for the others)"
+                        ));
+                        break;
+                    }
+                    Err(std::sync::mpsc::RecvTimeoutError::Disconnected) => break,
+                }
+                if start.elapsed() >= Duration::from_millis(millis) {
+                    break;
+                }
+            }
+            stop.store(true, Ordering::SeqCst);
+            if out.is_empty() {
+                // give the workers time to finish their current stream, then release the held keys and check the accounting
+                std::thread::sleep(Duration::from_millis(200));
+                let fin = catch_unwind(AssertUnwindSafe(|| {
+                    drop(guards);
+                    map.num_entries_or_locked()
+                }));
+                match fin {
+                    Ok(n) if n == (held + free) as usize => {}
+                    Ok(n) => {
+                        // a worker may still hold one guard of its last stream: only more than that is wrong
+                        if n > (held + free) as usize {
+                            out.push(format!("C04: {n} entries reported, {} keys have values", held + free));
+                        }
+                    }
+                    Err(e) => out.push(format!("C13: panic while releasing the held keys: {}", payload(e))),
+                }
+            } else {
+                // leave the stuck threads alone: the process ends with the report
+                std::mem::forget(guards);
+            }
+            *violations.lock().unwrap_or_else(|e| e.into_inner()) = out.clone();
+            Report { ops: ops.load(Ordering::Relaxed), violations: out }
+        }
+    };
+}
+
+holders_map!(holders_hashmap, LockableHashMap<u32, u32>);
+holders_map!(holders_lru, LockableLruCache<u32, u32>);
+
+pub fn run_holders(kind: Kind, threads: usize, millis: u64, held: u32, free: u32) -> Report {
+    match kind {
+        Kind::HashMap => holders_hashmap(threads, millis, held, free),
+        Kind::Lru => holders_lru(threads, millis, held, free),
+        Kind::Pool => Report { ops: 0, violations: Vec::new() },
+    }
+}
+
 pub fn run(kind: Kind, threads: usize, millis: u64, seed: u64, nkeys: u32, stop_on: Option<String>, limits: bool) -> Report {
     match kind {
         Kind::HashMap => stress_hashmap(threads, millis, seed, nkeys, stop_on, limits),
